@@ -42,7 +42,9 @@ def mangle(t):
 
 C_VOID = "c_void"
 INST = {"Box": G("CBox", C_VOID), "Mut": PtrMut(C_VOID), "Ref": PtrConst(C_VOID)}
-CTX = {"Arc": G("CArc", C_VOID), "": "NoContext"}
+# "Generic": the context of a wrapped return type inside a vtable.  The generated Rust spells it `CGlueC::Context`; cbindgen resolves a path by its
+# last segment, cannot substitute it and mangles it as the (undeclared) name `Context` - the `*_Context` structures the post-processor instantiates
+CTX = {"Arc": G("CArc", C_VOID), "": "NoContext", "Generic": "Context"}
 
 VTBL_DOC = """/**
  * CGlue vtable for trait %s.
@@ -161,23 +163,32 @@ class Emitted:
 
     def __init__(self):
         self.text = ""
+        self.generic_structs = []
         self.roots = []   # dict(kind, name, inst, ctx, struct, container, vtables=[(trait, field, vtbl struct)], methods)
 
 
 def ctx_c(ctx):
-    return "CArc_c_void" if ctx == "Arc" else "NoContext"
+    return {"Arc": "CArc_c_void", "": "NoContext", "Generic": "Context"}[ctx]
 
 
-def emit(model, seed=0):
+def emit(model, seed=0, generic=None):
+    """generic: wrapped return types in vtables are emitted the way cbindgen sees them - as context-generic `*_Context` instantiations; the
+    per-context structures are then NOT in the input (unless exported elsewhere) and are only registered in em.roots for the oracle"""
+    if generic is None:
+        generic = getattr(model, "generic", True)
     rng = random.Random(seed)
     out = []
     em = Emitted()
+    em.generic = generic
     done = set()
+    silent = [0]
     out.append("#include <stdarg.h>\n#include <stdbool.h>\n#include <stdint.h>\n#include <stdlib.h>\n")
     pending_user = sorted(model.user_items, key=lambda x: x[0])
     nblocks = [0]
 
     def block(text):
+        if silent[0]:
+            return
         # unrelated user declarations are interleaved at their positions
         while pending_user and pending_user[0][0] <= nblocks[0]:
             out.append(pending_user.pop(0)[1] + "\n")
@@ -185,6 +196,8 @@ def emit(model, seed=0):
         nblocks[0] += 1
 
     def once(key, text):
+        if silent[0]:
+            return
         if key not in done:
             done.add(key)
             block(text)
@@ -192,7 +205,9 @@ def emit(model, seed=0):
     def basics(inst, ctx):
         if inst == "Box":
             once("CBox", BOX_DOC + "typedef struct CBox_c_void {\n    void *instance;\n    void (*drop_fn)(void*);\n} CBox_c_void;\n")
-        if ctx == "Arc":
+        if ctx == "Generic":
+            pass
+        elif ctx == "Arc":
             once("CArc", ARC_DOC + "typedef struct CArc_c_void {\n    const void *instance;\n    const void *(*clone_fn)(const void*);\n    void (*drop_fn)(const void*);\n} CArc_c_void;\n")
         else:
             once("NoContext", "typedef struct NoContext NoContext;\n")
@@ -201,7 +216,7 @@ def emit(model, seed=0):
         return {"Box": "struct CBox_c_void instance;", "Mut": "void *instance;", "Ref": "const void *instance;"}[inst]
 
     def ctx_field(ctx):
-        return "struct CArc_c_void context;" if ctx == "Arc" else "struct NoContext context;"
+        return {"Arc": "struct CArc_c_void context;", "": "struct NoContext context;", "Generic": "Context context;"}[ctx]
 
     def rettmp(trait, ctx):
         """emit RetTmp for (trait, ctx); returns its struct name"""
@@ -222,7 +237,10 @@ def emit(model, seed=0):
             return "struct %s " % cont_struct
         if isinstance(m.ret, tuple):
             kind, rname, rinst = m.ret[0].replace("ptr", ""), m.ret[1], m.ret[2]
-            r = root_struct(kind, rname, rinst, ctx)
+            r = wrapped_struct(kind, rname, rinst, ctx)
+            if (generic or ctx == "Generic") and kind == "obj":
+                # the generated Rust names the `<Trait>Base` alias: cbindgen instantiates the alias and uses its (typedef) name
+                return "%s %s" % (obj_base_alias(rname, rinst, "Generic"), "*" if m.ret[0].endswith("ptr") else "")
             return "struct %s %s" % (r, "*" if m.ret[0].endswith("ptr") else "")
         return m.ret + ("" if m.ret.endswith("*") else " ")
 
@@ -240,10 +258,35 @@ def emit(model, seed=0):
         once(vname, (VTBL_DOC % trait) + "typedef struct %s {\n%s\n} %s;\n" % (vname, "\n".join(lines), vname))
         return vname
 
+    def obj_base_alias(name, inst, ctx):
+        return "%sBase_%s" % (name, mangle_raw(INST[inst]).rstrip("_") + "_____" + ctx_c(ctx))
+
+    def wrapped_struct(kind, name, inst, ctx):
+        """the type a vtable entry of an object with context `ctx` returns: text name"""
+        if generic or ctx == "Generic":
+            if ctx != "Generic":
+                silent[0] += 1
+                try:
+                    root_struct(kind, name, inst, ctx)     # what the processed header must contain for this context: registered, not emitted
+                finally:
+                    silent[0] -= 1
+            return root_struct(kind, name, inst, "Generic")
+        return root_struct(kind, name, inst, ctx)
+
+    def register(entry):
+        if entry["ctx"] == "Generic":
+            em.generic_structs.append(entry)
+            return
+        for r in em.roots:
+            if r["key"] == entry["key"]:
+                r["emitted"] = r["emitted"] or entry["emitted"]
+                return
+        em.roots.append(entry)
+
     def root_struct(kind, name, inst, ctx):
         key = (kind, name, inst, ctx)
-        for r in em.roots:
-            if r["key"] == key:
+        for r in em.roots + em.generic_structs:
+            if r["key"] == key and (r["emitted"] or silent[0]):
                 return r["struct"]
         basics(inst, ctx)
         ctxt = CTX[ctx]
@@ -259,13 +302,15 @@ def emit(model, seed=0):
                 # wrapped returns first
                 for m in model.traits[t].methods:
                     if isinstance(m.ret, tuple):
-                        root_struct(m.ret[0].replace("ptr", ""), m.ret[1], m.ret[2], ctx)
+                        wrapped_struct(m.ret[0].replace("ptr", ""), m.ret[1], m.ret[2], ctx)
                 vt.append((t, "vtbl_%s" % t.lower(), vtable(t, cont, ctx)))
             sname = mangle(G(name, INST[inst], ctxt))
             body = "".join("    const struct %s *%s;\n" % (v, f) for _, f, v in vt) + "    struct %s container;\n" % cont
             doc = GROUP_DOC % (" + ".join("%s < >" % t for t in traits), name)
             once(sname, doc + "typedef struct %s {\n%s} %s;\n" % (sname, body, sname))
-            em.roots.append(dict(key=key, kind=kind, name=name, inst=inst, ctx=ctx, struct=sname, container=cont, vtables=vt))
+            register(dict(key=key, kind=kind, name=name, inst=inst, ctx=ctx, struct=sname, container=cont, vtables=vt, emitted=not silent[0]))
+            if ctx == "Generic":
+                return sname
             # typedef chain down to the opaque alias
             alias = name + ("Arc" if ctx == "Arc" else "") + inst
             once("alias" + sname, "typedef struct %s %sBase%s_%s;\n" % (sname, name, "Ctx" + inst if ctx else inst, "c_void__" + ctx_c(ctx) if ctx else "c_void") +
@@ -274,18 +319,21 @@ def emit(model, seed=0):
         else:
             for m in model.traits[name].methods:
                 if isinstance(m.ret, tuple) and not m.ret[0].endswith("ptr"):
-                    root_struct(m.ret[0], m.ret[1], m.ret[2], ctx)
+                    wrapped_struct(m.ret[0], m.ret[1], m.ret[2], ctx)
             rt = rettmp(name, ctx)
             cont = mangle(G("CGlueObjContainer", INST[inst], ctxt, G(name + "RetTmp", ctxt)))
             fields = "    %s\n    %s\n    struct %s ret_tmp;\n" % (inst_field(inst), ctx_field(ctx), rt)
             once(cont, CONT_DOC + "typedef struct %s {\n%s} %s;\n" % (cont, fields, cont))
             for m in model.traits[name].methods:
                 if isinstance(m.ret, tuple):
-                    root_struct(m.ret[0].replace("ptr", ""), m.ret[1], m.ret[2], ctx)
+                    wrapped_struct(m.ret[0].replace("ptr", ""), m.ret[1], m.ret[2], ctx)
             v = vtable(name, cont, ctx)
             sname = mangle(G("CGlueTraitObj", INST[inst], G(name + "Vtbl", G("CGlueObjContainer", INST[inst], ctxt, G(name + "RetTmp", ctxt))), ctxt, G(name + "RetTmp", ctxt)))
             once(sname, OBJ_DOC + "typedef struct %s {\n    const struct %s *vtbl;\n    struct %s container;\n} %s;\n" % (sname, v, cont, sname))
-            em.roots.append(dict(key=key, kind=kind, name=name, inst=inst, ctx=ctx, struct=sname, container=cont, vtables=[(name, "vtbl", v)]))
+            register(dict(key=key, kind=kind, name=name, inst=inst, ctx=ctx, struct=sname, container=cont, vtables=[(name, "vtbl", v)], emitted=not silent[0]))
+            if ctx == "Generic":
+                once("alias" + sname, "/**\n * Base CGlue trait object for trait %s.\n */\ntypedef struct %s %s;\n" % (name, sname, obj_base_alias(name, inst, ctx)))
+                return sname
             base = "%sBase_%s" % (name, mangle_raw(INST[inst]).rstrip("_") + "_____" + ctx_c(ctx))
             alias = name + ("Arc" if ctx == "Arc" else "") + inst
             once("alias" + sname, "/**\n * Base CGlue trait object for trait %s.\n */\ntypedef struct %s %s;\n" % (name, sname, base) +
@@ -350,6 +398,8 @@ def random_model(seed, fnptr=False, wrapped=False, layout=False, plain=False, wr
     """layout: an exported item mentions the foreign `const TypeLayout *` (what layout_checks exports);
     plain: a header without any CGlue object or group (only user declarations and functions)"""
     m = _random_model(seed, fnptr)
+    # one header in four is written the way a hand-monomorphised (or older) cbindgen output looks: wrapped return types already carry the owner's context
+    m.generic = (seed // 3) % 4 != 3
     if wrapped:
         add_wrapped(m, random.Random(seed ^ 0x77a9), wrapped_ctx)
     if plain:
